@@ -301,6 +301,20 @@ class ServerDriver:
                 self.trace.append(('Ret', _copy(await aw(sio.get_session(o[1], namespace=o[2])))))
             elif k == 'save_session':
                 await aw(sio.save_session(o[1], _copy(o[2]), namespace=o[3]))
+            elif k == 'session_nested':
+                # two session() blocks for the same client open at once (the inner one inside the outer one)
+                _, sid_, ns_, k1, v1, k2, v2 = o
+                self.trace.append(('NestedStart',))
+                if self.mode == 'sync':
+                    with sio.session(sid_, namespace=ns_) as outer:
+                        outer[k1] = _copy(v1)
+                        with sio.session(sid_, namespace=ns_) as inner:
+                            inner[k2] = _copy(v2)
+                else:
+                    async with sio.session(sid_, namespace=ns_) as outer:
+                        outer[k1] = _copy(v1)
+                        async with sio.session(sid_, namespace=ns_) as inner:
+                            inner[k2] = _copy(v2)
             elif k == 'session_replace':
                 # with session(sid) as s: s.clear(); s.update(new)  -- keys are REMOVED inside the block
                 if self.mode == 'sync':
@@ -359,7 +373,13 @@ def run_history(cfg, ops, mode='sync', coro=False):
         out = []
         for o in ops:
             effs, tbl = await d.op(o)
-            if o[0] == 'msg_nested':
+            if o[0] == 'session_nested':
+                # model: the two blocks one after the other (no observable effect in between); if the
+                # session cannot be obtained both halves raise the same exception
+                rest = [e for e in effs if e != ('NestedStart',)]
+                out.append((rest, tbl))
+                out.append((rest, tbl))
+            elif o[0] == 'msg_nested':
                 # In the model the nested delivery is the same message delivered right after: the
                 # callback invocation is the last thing _handle_ack does (tail position), so the
                 # nested run sees exactly the state the sequential run sees.
